@@ -61,6 +61,7 @@ def parseEvent : Sx → Option Event
   | .atom "cacheClear" => some .cacheClear
   | .atom "cacheFreeze" => some .cacheFreeze
   | .atom "mayFill" => some .mayFill
+  | .atom "maskRepChanged" => some .maskRepChanged
   | .list [.atom "write", .atom a, .atom m] => do some (.write (← parseAttr a) (← parseMode m))
   | .list [.atom "cacheDel", .atom k] => do some (.cacheDel (← parseKey k))
   | .list [.atom "assumeVarr", b] => do some (.assumeVarr (← b.toBool?))
